@@ -42,3 +42,26 @@ func VerifBinaryDistances(threshold []float32, bitMetric, floatMetric string, x,
 	fromPoint = bq.DistanceFromPoint(px)(py)
 	return fromFloat, fromPoint, nil
 }
+
+// VerifProductDistances evaluates the two distance closures of a FITTED product
+// quantizer whose tables are given: flatCentroids has shape (numSubVectors *
+// numCentroids * subVectorLen), centroidDists (numSubVectors * numCentroids *
+// numCentroids). distFn is the sub-vector distance used to build the look-up
+// table of DistanceFromFloat (the caller chooses it, e.g. the pure Go loop).
+// codesX / codesY are the centroid ids of two stored points.
+func VerifProductDistances(numSubVectors, numCentroids, subVectorLen int, distFn distance.FloatDistFunc,
+	flatCentroids, centroidDists, x []float32, codesX, codesY []uint8) (fromFloat, fromPoint float32) {
+	pq := &productQuantizer{
+		params:            models.ProductQuantizerParameters{NumCentroids: numCentroids, NumSubVectors: numSubVectors},
+		distFn:            distFn,
+		originalVectorLen: numSubVectors * subVectorLen,
+		subVectorLen:      subVectorLen,
+		flatCentroids:     flatCentroids,
+		centroidDists:     centroidDists,
+	}
+	px := &productQuantizedPoint{id: 1, CentroidIds: codesX}
+	py := &productQuantizedPoint{id: 2, CentroidIds: codesY}
+	fromFloat = pq.DistanceFromFloat(x)(py)
+	fromPoint = pq.DistanceFromPoint(px)(py)
+	return fromFloat, fromPoint
+}
